@@ -299,6 +299,33 @@ def run_op(w: W.World, op):
     return obs
 
 
+def read_mh_sequences(path):
+    """the raw content of .mh_sequences, as an MH tool reads it (python's mailbox.MH silently drops
+    numbers of messages that no longer exist, which would hide stale entries)"""
+    out = {}
+    try:
+        with open(path, "r", encoding="latin-1") as f:
+            for line in f:
+                line = line.strip()
+                if not line:
+                    continue
+                name, sep, rest = line.partition(":")
+                if not sep:
+                    return {"<error>": [f"line without ':' : {line!r}"]}
+                keys = set()
+                for spec in rest.split():
+                    a, _, b = spec.partition("-")
+                    if not a.isdigit() or (b and not b.isdigit()):
+                        return {"<error>": [f"bad sequence spec {spec!r} in {line!r}"]}
+                    keys.update(range(int(a), int(b or a) + 1))
+                if name in out:
+                    return {"<error>": [f"sequence {name!r} listed twice"]}
+                out[name] = sorted(keys)
+    except OSError as e:
+        return {"<error>": [repr(e)]}
+    return out
+
+
 class History:
     """generates ops online against a running world, recording ops and observations"""
 
@@ -336,10 +363,7 @@ class History:
                     except OSError:
                         cids.append(-2)
                         dates.append(-2)
-                try:
-                    fileseqs = {k: sorted(v) for k, v in w.folder(b).get_sequences().items()}
-                except Exception as e:  # unreadable .mh_sequences is itself an observation
-                    fileseqs = {"<error>": [repr(e)]}
+                fileseqs = read_mh_sequences(str(w.root / b / ".mh_sequences"))
                 try:
                     diskkeys = sorted(int(x) for x in os.listdir(str(w.root / b)) if x.isdigit())
                 except OSError:
@@ -371,6 +395,35 @@ class History:
                 els.append((atom(), atom()))
             else:
                 els.append(atom())
+        return els
+
+    def ruidset(self, s, prefer_deleted=False):
+        """a UID set built from the UIDs the selected mailbox really has (sparse after expunges), with
+        some that do not exist, duplicates and ranges"""
+        rng = self.rng
+        snap = self.snaps[-1][1] if self.snaps and self.snaps[-1][1] else None
+        box = self.selected.get(s)
+        st = snap["boxes"].get(box) if snap and box else None
+        if not st or not st["uids"] or rng.random() < 0.25:
+            return self.rset(self.size_hint.get(box or "inbox", 0), True)
+        uids = st["uids"]
+        pool = list(uids)
+        if prefer_deleted:
+            dk = set(st["seqs"].get("Deleted", []))
+            d = [u for u, k in zip(st["uids"], st["keys"]) if k in dk]
+            if d:
+                pool = d * 3 + pool
+        els = []
+        for _ in range(rng.choice([1, 1, 2, 2, 3])):
+            r = rng.random()
+            a = rng.choice(pool)
+            if r < 0.55:
+                els.append(a)
+            elif r < 0.8:
+                b = rng.choice(pool + ["*"])
+                els.append((a, b))
+            else:
+                els.append(rng.choice([uids[-1] + rng.randint(1, 3), max(1, a - 1), "*"]))
         return els
 
     def rflags(self):
@@ -438,18 +491,19 @@ class History:
             return ("append", s, m, fl, BASE_DATE + 3600 * rng.randint(0, 200), cid)
         if k == "store":
             uidc = rng.random() < 0.4
-            return ("store", s, uidc, self.rset(n, uidc), rng.choice("+-="), rng.random() < 0.3, self.rflags())
+            return ("store", s, uidc, self.ruidset(s) if uidc else self.rset(n), rng.choice("+-="), rng.random() < 0.3,
+                    self.rflags())
         if k == "fetch":
             uidc = rng.random() < 0.4
-            return ("fetch", s, uidc, self.rset(n, uidc), rng.choice(["flags", "flags", "peek", "body"]))
+            return ("fetch", s, uidc, self.ruidset(s) if uidc else self.rset(n), rng.choice(["flags", "flags", "peek", "body"]))
         if k == "search":
             return ("search", s, rng.random() < 0.4, rng.choice(SYSTEM + KEYWORDS + ["\\Recent"]))
         if k == "expunge":
-            return ("expunge", s, self.rset(n, True) if rng.random() < 0.35 else None)
+            return ("expunge", s, self.ruidset(s, prefer_deleted=True) if rng.random() < 0.4 else None)
         if k in ("copy", "move"):
             uidc = rng.random() < 0.4
             dst = rng.choice(self.boxes + (["nosuch"] if rng.random() < 0.05 else []))
-            return (k, s, uidc, self.rset(n, uidc), dst)
+            return (k, s, uidc, self.ruidset(s) if uidc else self.rset(n), dst)
         if k == "deliver":
             cid = self.next_cid
             nn = rng.choice([1, 1, 2, 3])
